@@ -305,7 +305,7 @@ func (st sqlStyle) stmt(s Stmt) string {
 		}
 		return r + ";"
 	case "dropIndex":
-		if st.dialect == "sqlite3" {
+		if st.dialect != "mysql" {
 			return st.kw("DROP INDEX") + " " + st.id(s.A) + ";"
 		}
 		return st.kw("DROP INDEX") + " " + st.id(s.A) + " " + st.kw("ON") + " " + st.id(s.T) + ";"
